@@ -37,7 +37,7 @@ package yqlib
 //@   ensures @format {C01} result0 == intFormat(numberString)
 
 //@ func isTruthyNode
-//@   props C15 C01 C19 C11 C08
+//@   props C15 C01 C06 C19 C11 C08
 //@   modifies \nothing
 //@   ensures result == (node != nil && node.Tag != "!!null" && (!(node.Kind == ScalarNode && node.Tag == "!!bool") || truthyText(node.Value)))
 
@@ -1018,6 +1018,7 @@ package yqlib
 //@   at AddChildren: assert @slice-length {C01} len(newResults) == ite(relativeSecondNumber > relativeFirstNumber, relativeSecondNumber - relativeFirstNumber, 0)
 //@   at AddChildren: assert @slice-elements {C01} forall(j, 0, len(newResults), newResults[j] == lhsNode.Content[relativeFirstNumber + j])
 //@   at AddChildren: assert @new-sequence {C01} sliceArrayNode != nil && sliceArrayNode.Kind == SequenceNode && len(sliceArrayNode.Content) == 0 && sliceArrayNode.Tag == lhsNode.Tag
+//@   at PushBack: assert @a-container-that-owns-its-children {C16} ownsItsChildren(sliceArrayNode)
 //@   ensures @one-result-per-input {C01} implies(result1 == nil, result0.MatchingNodes != nil && len(result0.MatchingNodes) == len(context.MatchingNodes))
 //@   ensures @stays-read-only implies(result1 == nil, result0.DontAutoCreate == context.DontAutoCreate)
 //@   loop 1:
